@@ -62,6 +62,11 @@ func (my *OctetsReader) ReadBytes() ([]byte, error) {
 		return nil, nil
 	}
 
+	// 先检查剩余数据是否足够, 避免按照数据中声明的长度分配内存
+	if int(size) > my.stream.Len()-my.stream.Position() {
+		return nil, ErrNotEnoughData
+	}
+
 	var data = make([]byte, size)
 	var num, err2 = my.stream.Read(data)
 	if err2 != nil {
